@@ -88,10 +88,12 @@ def excStart (e : ExcSt α) (pitch : α) (fperiod : Nat) : ExcSt α :=
 
 def excEnd (e : ExcSt α) (pitch : α) : ExcSt α := { e with pitchOfCurr := pitch }
 
-/-- the pulse of this sample: counter += 1; on reaching the period, subtract it and fire `sqrt(period)` -/
+/-- the pulse of this sample: counter += 1; once it exceeds the period, subtract the period and fire
+    `sqrt(period)`. (`>` is the repaired test; the pinned commit's `>=` made the first gap after a
+    start `T0 − 1` for an exactly integer period — see `Jb.C07.first_gap_integer_pinned`.) -/
 def pulseStep (e : ExcSt α) : α × ExcSt α :=
   let c := e.pitchCounter + 1
-  if e.pitchOfCurr ≤ c then (Transc.sqrt e.pitchOfCurr, { e with pitchCounter := c - e.pitchOfCurr })
+  if e.pitchOfCurr < c then (Transc.sqrt e.pitchOfCurr, { e with pitchCounter := c - e.pitchOfCurr })
   else (0, { e with pitchCounter := c })
 
 /-- `Excitation::get(lpf)` -/
